@@ -85,7 +85,7 @@ Definition on_path : list site_lemma := [
 (* sites that no block result depends on, with the reason *)
 Definition off_path : list (string * string) := [
   ("range|staking/evidence.go|EvidenceDoubleSign.EncodeRLP|e.Signs#1",
-   "deprecated evidence type: processEvidences ignores every type but doublesignv5; order-dependent encoding");
+   "deprecated evidence type: processEvidences ignores every type but doublesignv5 (the collected entries are sorted after the loop)");
   ("range|staking/slash.go|Staking.processDoubleSign|doubleSign.Signs#1",
    "dead code: the call in processEvidences is commented out; order-dependent");
   ("range|staking/votes.go|votesWatcher.Inactive|votes#1",
